@@ -68,7 +68,7 @@ def main():
     todo = []
     for name in sorted(os.listdir(os.path.join(V, 'seeded'))):
         d = os.path.join(V, 'seeded', name)
-        if not os.path.exists(os.path.join(d, 'patch.diff')) or only not in name or name.endswith('-tmp'):
+        if not os.path.exists(os.path.join(d, 'patch.diff')) or not any(o in name for o in only.split(',')) or name.endswith('-tmp'):
             continue
         own = json.load(open(os.path.join(d, 'meta.json')))['property']
         files = touched(os.path.join(d, 'patch.diff'))
